@@ -4,7 +4,7 @@
    from the first product; no commutativity or distributivity is used or needed).
    `agrees m v` = same shape and the same element at every in-bounds index.
    Every statement holds for every rank and all positive extents. *)
-From NM Require Import Base Index Broadcast BroadcastProofs Linalg LinalgProofs.
+From NM Require Import Base Index Broadcast BroadcastProofs Linalg LinalgProofs Dtype LinalgDtype.
 Local Open Scope Z_scope.
 
 Section C16.
@@ -111,6 +111,30 @@ Theorem C16_default_arguments :
   = (np_default_offset, np_default_axis1, np_default_axis2, np_default_tensordot_axes).
 Proof. reflexivity. Qed.
 Print Assumptions C16_default_arguments.
+
+(* ---------- element types of the two operands (finite type set: decided by exhaustive computation) ----------
+   the result element type the model derives from the headers (view::matmul: meta::common_type of the two element types;
+   matmulv2 / dot / inner / vecdot / tensordot / outer / kron: the C++ type of a*b, kept by the sum; trace / diagonal: the
+   operand's type) equals the Spec: NumPy's result_type (trace: NumPy's accumulator type) except on the explicitly listed
+   pairs of LinalgDtype.diverges_* where nmtools' rule gives another type; the lists are tight. *)
+Theorem C16_result_dtype_spec : forall rt a b, In a used_dtypes -> In b used_dtypes ->
+  model_dtype rt a b = spec_dtype rt a b.
+Proof. exact model_dtype_spec. Qed.
+Print Assumptions C16_result_dtype_spec.
+
+Theorem C16_result_dtype_numpy_divergences_tight :
+  forallb (fun e => let '(a, b, r) := e in negb (dtype_eqb r (np_result_type a b))) (diverges_matmul ++ diverges_sumprod) = true
+  /\ forallb (fun e => let '(a, b, r) := e in negb (dtype_eqb r (np_accumulate_type a))) diverges_trace = true.
+Proof. exact diverges_tables_tight. Qed.
+Print Assumptions C16_result_dtype_numpy_divergences_tight.
+
+(* view::matmul's result type is floating exactly when an operand is, and for integer operands never narrower than either:
+   a wider or floating RIGHT operand is never narrowed to the left one (the seeded change C16r3 broke exactly this) *)
+Theorem C16_matmul_dtype_not_narrower : forall a b, In a used_dtypes -> In b used_dtypes ->
+  (is_float (model_dtype RMatmul a b) = is_float a || is_float b)
+  /\ (is_float a || is_float b = false -> bits a <= bits (model_dtype RMatmul a b) /\ bits b <= bits (model_dtype RMatmul a b)).
+Proof. exact matmul_dtype_not_narrower. Qed.
+Print Assumptions C16_matmul_dtype_not_narrower.
 
 (* ---------- where the faithful model violates the full statement (known findings) ---------- *)
 Definition iota (s : list Z) (i : list Z) : Z := horner 0 i s + 1.
